@@ -97,6 +97,27 @@ pub fn compare(got_dims: &[usize], got: &[f64], want: &T<f64>, rule: Rule) -> Re
     Ok(worst)
 }
 
+/// Element-wise *relative* comparison for point-wise functions: every output element is one scalar function value, so
+/// its error must be small relative to that element itself (not to the largest element of the array).
+pub fn compare_rel(got_dims: &[usize], got: &[f64], want: &T<f64>) -> Result<f64, (String, String)> {
+    if got_dims != &want.dims[..] {
+        return Err(("dims".into(), format!("dims {:?} want {:?}", got_dims, want.dims)));
+    }
+    let floor = if IS_F32 { f32::MIN_POSITIVE as f64 } else { f64::MIN_POSITIVE };
+    let mut worst = 0.0f64;
+    for (i, (g, w)) in got.iter().zip(&want.v).enumerate() {
+        let tol = tau() * w.abs() + floor;
+        let e = (g - w).abs();
+        if e.is_finite() {
+            worst = worst.max(e / tol);
+        }
+        if !(e <= tol) && !(g.is_nan() && w.is_nan()) && !(g == w) {
+            return Err(("values".into(), format!("element {} got {:e} want {:e} (relative error {:e}); got {} want {}", i, g, w, e / w.abs(), short(got), short(&want.v))));
+        }
+    }
+    Ok(worst)
+}
+
 pub fn short(v: &[f64]) -> String {
     if v.len() <= 24 {
         format!("{:?}", v)
